@@ -35,17 +35,17 @@ theorem isConstPar_sound (E : Nat) (pvals : Nat → List Rat) (j m : Nat) (hm : 
 
 /-- **the classification is invisible**: the parameter vector the residual of member `m` sees is
     that member's own vector -/
-theorem effPar_eq (E npar : Nat) (pvals : Nat → List Rat) (m : Nat) (hm : m < E)
-    (hlen : (pvals m).length = npar) : effPar E npar pvals m = pvals m := by
+theorem effPar_eq (E npar : Nat) (dyn : Nat → Bool) (pvals : Nat → List Rat) (m : Nat) (hm : m < E)
+    (hlen : (pvals m).length = npar) : effPar E npar dyn pvals m = pvals m := by
   unfold effPar
   have : (List.range npar).map (fun j =>
-      if isConstPar E pvals j then (pvals 0).getD j 0 else (pvals m).getD j 0)
+      if isConstPar E pvals j && !dyn j then (pvals 0).getD j 0 else (pvals m).getD j 0)
       = (List.range npar).map (fun j => (pvals m).getD j 0) := by
     apply List.map_congr_left
     intro j _
-    by_cases h : isConstPar E pvals j = true
+    by_cases h : (isConstPar E pvals j && !dyn j) = true
     · simp only [h, if_true]
-      exact isConstPar_sound E pvals j m hm h
+      exact isConstPar_sound E pvals j m hm (Bool.and_eq_true_iff.1 h).1
     · simp only [h]
       rfl
   rw [this, ← hlen]
